@@ -50,9 +50,9 @@ private:
     thread_dispatcher& my_thread_dispatcher;
     int my_soft_limit{ 0 };
     std::atomic<int> my_total_request{ 0 };
-    // my_pending_delta is set to pending_delta_base to have ability to hold negative values
-    // consider increase base since thead number will be bigger than 1 << 15
-    static constexpr std::uint64_t pending_delta_base = 1 << 15;
+    // my_pending_delta is set to pending_delta_base to have ability to hold negative values.
+    // The low 32 bits hold the accumulated delta (any int fits), the high 32 bits count pending updates.
+    static constexpr std::uint64_t pending_delta_base = std::uint64_t(1) << 31;
     std::atomic<std::uint64_t> my_pending_delta{ pending_delta_base };
     mutex_type my_mutex;
 };
